@@ -14,6 +14,7 @@ import Lattigo.Model.Params
     ckks_new  (same keys) lds=<LogDefaultScale>        → idem, plus err:logDefaultScale
     bgv_new logN= rt= Q= P= t=                         → accept nT= slots= logslots= qmul= | err:<cls>
     derived logN= rt= Q= P= lds= ks=<ivec> is=<b:n;…> tr=<ivec>
+    accessors logN= rt= Q= P= ws=<vec>                 → qim= pim= brns= maxbit= b2= logqi= logpi= qlvl= counts= maxlevels=
     exported name= logN= xsH= Q= P=                    → bitQ= bitP= bitQP= kind= table= within= strict= known=
     table logN= kind=                                  → <T> | none
 -/
@@ -96,6 +97,29 @@ def handleDerived (toks : List String) : Option String := do
     s!"gal={showVec gal} galinv={showVec galInv} " ++
     s!"isum={";".intercalate isum} rep={";".intercalate rep} tr={";".intercalate trs}")
 
+def showIRows (rows : List (List Int)) : String :=
+  if rows.isEmpty then "-" else ";".intercalate (rows.map showIVec)
+
+/-- every level-dependent accessor at every level (see harness/c19_derived.go) -/
+def handleAccessors (toks : List String) : Option String := do
+  let a ← parseAccepted? toks
+  let ws ← parseVec? (← kv? toks "ws")
+  let nq := a.q.length
+  let np := a.p.length
+  let lps : List Int := (List.range (np + 1)).map fun i => Int.ofNat i - 1    -- -1 … np-1
+  let qim := (List.range nq).map a.qiOverflowMargin
+  let pim := lps.map a.piOverflowMargin
+  let brns := (List.range nq).map fun lq => lps.map fun lp => (baseRNSDecompositionVectorSize lq lp : Int)
+  let maxbit := (List.range nq).map fun lq => lps.map fun lp => (a.maxBit lq lp : Int)
+  let b2 := ws.flatMap fun w => ([-1, 0, 1] : List Int).map fun lp =>
+    (a.baseTwoDecompositionVectorSize lp w).map Int.ofNat
+  let logqi := a.q.map roundLog2
+  let logpi := a.p.map roundLog2
+  let qlvl := (List.range nq).map a.logQLvl
+  some (s!"qim={showIVec qim} pim={showIVec pim} brns={showIRows brns} maxbit={showIRows maxbit} " ++
+    s!"b2={showIRows b2} logqi={showVec logqi} logpi={showVec logpi} qlvl={showVec qlvl} " ++
+    s!"counts={nq},{np},{nq + np} maxlevels={a.maxLevel},{a.maxLevel},{a.maxLevelP}")
+
 def handleExported (toks : List String) : Option String := do
   let name ← kv? toks "name"
   let logN ← (← kv? toks "logN").toNat?
@@ -156,6 +180,7 @@ def handle (toks : List String) : String :=
         (bgvNew goOracle driverFuel a t)
     | _ => badOp
   | "derived" :: rest => (handleDerived rest).getD badOp
+  | "accessors" :: rest => (handleAccessors rest).getD badOp
   | "exported" :: rest => (handleExported rest).getD badOp
   | "table" :: rest =>
     match ((kv? rest "logN").bind String.toNat?, (kv? rest "kind").bind String.toNat?) with
